@@ -35,12 +35,14 @@ fn build_root() -> Context<'static> {
     ctx
 }
 
-const P18: [&str; 22] = [
+const P18: [&str; 26] = [
     "xs + [9]", "xs + ys", "xs + xs", "(xs + ys) + xs", "e + xs", "s + 'c'", "s + s", "es + s", "xs.map(v, v + 1)", "xs.filter(v, v > 1)", "n.map(l, l + [0])", "n[0] + n[1]",
     "m.k + [2]", "m.map(k, m[k] + [5])", "[xs, xs]", "{'a': xs}", "r0 + [7]", "r0 + r0",
     // a macro that fails in the middle of its loop, and macros that read a same-named outer
     // variable / an undeclared name afterwards (stale state of an aborted evaluation)
     "xs.map(v, 10 / (v - 2))", "ys.map(w, v + w)", "xs.filter(u, 10 / (u - 2) > 0)", "ys.map(w, [w, u])",
+    // built-ins that could memoise (regex, conversions): different arguments in one history
+    "s.matches('^a')", "s.matches('b$') && !s.matches('^b')", "[string(xs[0]), string(xs[1]), s + string(v)]", "size(xs + ys) + size(s + s)",
 ];
 
 fn arc_id(v: &Value) -> Option<(usize, usize)> {
@@ -342,7 +344,7 @@ fn part_a(run: &mut Run) {
 // ---------------------------------------------------------------------------
 // (B) schedules
 
-const P8: [&str; 8] = [
+const P8: [&str; 10] = [
     "[xs + [9, me], sc()][0]",
     "[[me, xs[0]], sc()][0]",
     "[{'a': xs, 'b': me}, sc()][0]",
@@ -351,6 +353,8 @@ const P8: [&str; 8] = [
     "[xs.filter(v, v > me), sc()][0]",
     "[n.map(l, l + [me, 0]), sc()][0]",
     "[max(xs[0], me, xs[1]), sc()][0]",
+    "[[s.matches('^a'), s.matches('^b'), me], sc()][0]",
+    "[[s.matches('b$'), string(me) + s, s.matches('^b')], sc()][0]",
 ];
 
 struct PartB {
@@ -444,8 +448,13 @@ fn part_b(run: &mut Run) {
     let quick = run.quick();
     // configurations: (threads, programs per thread, preemption bound)
     let mut configs: Vec<(String, Vec<Vec<usize>>, usize)> = vec![];
-    for p in 0..8 {
-        for q in 0..8 {
+    for p in 0..P8.len() {
+        for q in 0..P8.len() {
+            // the exploration covers every interleaving, so (p,q) and (q,p) differ only in the
+            // private values of the two threads: the quick tier takes unordered pairs
+            if quick && q < p {
+                continue;
+            }
             configs.push((format!("2t:{}|{}", p, q), vec![vec![p], vec![q]], if quick { 2 } else { 3 }));
         }
     }
